@@ -49,10 +49,17 @@ def run(ctx, driver):
                 rec.disagree("pool-pass", dict(payload, why=d, model=ans))
         if len(rec.samples) < 3 and impl["created"] and impl["closing"]:
             rec.samples.append({"case": c, "impl": payload["impl"], "model": ans})
-    return rec.finish("C04/B1 pool pass",
+    import concur
+    concur.explore(ctx, rec, ID, {"p_fault": 0.25, "p_cancel": 0.1, "retries": 2, "max_connections": 1}, 60, 800, ["C04:"])
+    concur.explore(ctx, rec, ID, {"p_fault": 0.1, "p_cancel": 0.1, "gate_close": True, "p_conn_close": 0.3}, 60, 800, ["C04:"])
+    concur.explore(ctx, rec, ID, {"p_fault": 0.1, "p_cancel": 0.05, "http2": True, "max_connections": 1, "p_conn_close": 0.0, "callers": 4},
+                   30, 400, ["C04:"])
+    return rec.finish("C04/B1 pool pass + concurrent schedules",
                       "random pools: max 1-4, keep-alive 0-3/None, 0..max stub connections with status bits from 9 classes (idle, active, "
                       "available, closed, expired, odd combinations), 0-4 requests over 4 origins, some pre-assigned; one pass each on the real "
-                      "ConnectionPool; distinct = distinct cases")
+                      "ConnectionPool; plus random multi-caller schedules on the real async pool (asyncio+trio, gated network, retries, faults, "
+                      "cancels, HTTP/2): at every quiescent point len(pool.connections) <= max and open streams <= max + closes in progress; "
+                      "distinct = distinct cases / schedules")
 
 
 replay = propbase.default_replay
